@@ -139,7 +139,9 @@ var sgrRe = regexp.MustCompile("\x1b\\[[0-9;]*m")
 // up to these numbers.
 var envNumbers = regexp.MustCompile(`(goroutines|cgocalls|cpu)=[0-9]+`)
 
-func stripSGR(b []byte) []byte { return envNumbers.ReplaceAll(sgrRe.ReplaceAll(b, nil), []byte("$1=N")) }
+func stripSGR(b []byte) []byte {
+	return envNumbers.ReplaceAll(sgrRe.ReplaceAll(b, nil), []byte("$1=N"))
+}
 
 // runEvilServer accepts connections on the current node's host name and
 // plays the script on every shell session.
